@@ -211,7 +211,9 @@ class DiameterAssociation(object):
                                            f"Message(s).")
 
             except tuple(LIBRARY_ERRORS) as e:
-                self._recv_stream_remainder = b""
+                #: Only the whole messages handed to the decoder are dropped; 
+                #: the bytes of a message still being received are kept, 
+                #: otherwise the stream would lose its alignment.
                 diameter_conn_logger.exception(f"{type(e).__name__} has "\
                                                f"been raised due stream: "\
                                                f"{data_stream.hex()}")
